@@ -51,6 +51,11 @@ impl Notify {
         })
     }
 
+    /// A branch point on this object without any effect on it.
+    pub(crate) fn branch(self, location: Location) {
+        self.state.branch_opaque(location);
+    }
+
     pub(crate) fn notify(self, location: Location) {
         self.state.branch_opaque(location);
 
